@@ -49,7 +49,7 @@ MANIFEST = dict(
 IMP_CS = ['Coq.Lists.List', 'Coq.NArith.NArith', 'Coq.ZArith.ZArith', 'Coq.Bool.Bool', 'SV.Fmt.CmdSeq', 'SV.Gen.CmdSeqFmt_gen']
 IMP_SMD = ['Coq.Lists.List', 'Coq.NArith.NArith', 'Coq.Arith.PeanoNat', 'Coq.Bool.Bool', 'SV.Fmt.SmdTpl', 'SV.Fmt.SmdWords', 'SV.Gen.SmdTpl_gen']
 IMP_IMG = ['Coq.Lists.List', 'Coq.NArith.NArith', 'Coq.Bool.Bool', 'SV.Fmt.ScenesImage']
-IMP_TXT = ['Coq.Lists.List', 'Coq.NArith.NArith', 'Coq.Bool.Bool', 'SV.Fmt.SndStacks', 'SV.Fmt.TextFields', 'SV.Gen.TextFields_gen']
+IMP_TXT = ['Coq.Lists.List', 'Coq.NArith.NArith', 'Coq.Bool.Bool', 'SV.Fmt.SndStacks', 'SV.Fmt.VmtQuote', 'SV.Fmt.TextFields', 'SV.Gen.TextFields_gen']
 IMP_CB = ['Coq.Lists.List', 'Coq.NArith.NArith', 'Coq.Bool.Bool', 'Coq.Arith.PeanoNat', 'SV.Fmt.ChoreoBin', 'SV.Gen.ChoreoBin_gen']
 IMP_IMGCFG = ['Coq.Lists.List', 'Coq.NArith.NArith', 'Coq.Bool.Bool', 'SV.Fmt.ScenesImage', 'SV.Fmt.ScenesImageCfg', 'SV.Gen.ScenesImg_gen']
 
@@ -196,10 +196,9 @@ def cs_nonrepresentable(rng: random.Random, spec: dict) -> dict:
     return spec
 
 
-def corr_cmdseq_write(ck: Ck) -> list[tuple[dict, bytes]]:
+def corr_cmdseq_write(ck: Ck, files: list[tuple[dict, bytes]]):
     n = ck.budget(30, 600)
     cases = []
-    files = []
     for i in range(n):
         spec = U.cmdseq_gen(ck.rng)
         if i % 4 == 3:
@@ -223,18 +222,17 @@ def corr_cmdseq_write(ck: Ck) -> list[tuple[dict, bytes]]:
         part = cases[lo:lo + 45]
         lit = coq_list(f'({cs_coq_value(s)}, {e})' for s, e in part)
         jobs.append((IMP_CS, [f'bad_idx (fun c : seqs * option (list N) => onl_eqb (write gen_cfg (fst c)) (snd c)) 0 {lit}'], f'cswrite{lo}', PRE_CS))
-    for lo, vals in zip(range(0, len(cases), 45), par_eval(ck, jobs)):
+    for lo, vals in zip(range(0, len(cases), 45), (yield jobs)):
         if vals is None:
             ck.obligation('correspondence:cmdseq-write', False, 'model could not be evaluated')
             ck.tie_broken.append('correspondence cmdseq write: model evaluation failed')
-            return files
+            return
         bad += [lo + i for i in parse_coq_N_list(vals[0])]
     ck.obligation('correspondence:cmdseq-write', not bad,
                   f'{len(cases)} values (1 in 4 outside the alphabet): model write (vm_compute) vs cmdseq.write bytes/error: {len(bad)} disagreements')
     if bad:
         ck.tie_broken.append('correspondence cmdseq write (Fmt/CmdSeq.v write vs srctools.cmdseq.write)')
         ck.extra['cmdseq_write_disagreement'] = {'value': cases[bad[0]][0], 'impl': cases[bad[0]][1][:400]}
-    return files
 
 
 VERSION_TAGS = [0.2, 0.1, 0.19999999, 0.2000001, 0.5, 1.0, 0.0, -0.0, -1.0, float('nan'), float('inf'), float('-inf'), 1e-45, 3.0e38]
@@ -323,7 +321,7 @@ def corr_cmdseq_parse(ck: Ck, files: list[tuple[dict, bytes]]) -> None:
         part = cases[lo:lo + 60]
         lit = coq_list(f'(unrle {rle(d)}, {e})' for _, d, e in part)
         jobs.append((IMP_CS, [f'bad_idx (fun c : list N * option (list N) => onl_eqb (option_map flat (parse gen_cfg (fst c))) (snd c)) 0 {lit}'], f'csparse{lo}', PRE_CS))
-    for lo, vals in zip(range(0, len(cases), 60), par_eval(ck, jobs)):
+    for lo, vals in zip(range(0, len(cases), 60), (yield jobs)):
         if vals is None:
             ck.obligation('correspondence:cmdseq-parse', False, 'model could not be evaluated')
             ck.tie_broken.append('correspondence cmdseq parse: model evaluation failed')
@@ -456,21 +454,8 @@ def corr_image(ck: Ck) -> None:
         part = wcases[lo:lo + 50]
         lit = coq_list(f'({a}, {b})' for a, b, _ in part)
         jobs.append((IMP_IMG, [f'bad_idx (fun c : (N * list (list N) * list entry) * list N => let \'(v, pool, es) := fst c in nl_eqb (img_write_py v pool es) (snd c)) 0 {lit}'], f'imgwrite{lo}', PRE_IMG))
-    for lo, vals in zip(range(0, len(wcases), 50), par_eval(ck, jobs)):
-        if vals is None:
-            ck.obligation('correspondence:scenes-image-write', False, 'model could not be evaluated')
-            ck.tie_broken.append('correspondence scenes.image write: model evaluation failed')
-            return
-        bad += [lo + i for i in parse_coq_N_list(vals[0])]
-    ck.obligation('correspondence:scenes-image-write', not bad,
-                  f'{len(wcases)} container-level images (shared pool, raw and LZMA-stored blobs, v2/v3, entries in random order): '
-                  f'model img_write_py vs save_scenes_image_sync bytes: {len(bad)} disagreements')
-    if bad:
-        ck.tie_broken.append('correspondence scenes.image write (Fmt/ScenesImage.v img_write_py vs save_scenes_image_sync)')
-        ck.extra['image_write_disagreement'] = wcases[bad[0]][2]
     # reader: compare success/failure and the flattened entries (the decompressed payload is compared for raw blobs only:
     # the model returns the stored blob, so LZMA-stored payloads are compared on the stored bytes)
-    bad = []
     plits = []
     for v, exp in pcases:
         if exp[0] == 'err':
@@ -489,11 +474,25 @@ Definition flat_img2 (r : N * list (list N) * list pentry) : list N :=
   let '(v, pool, ps) := r in v :: N.of_nat (length (dict_of ps)) :: flat_map flat_p2 (dict_of ps).
 '''
     fixed = plits
-    jobs = []
+    jobs_p = []
     for lo in range(0, len(fixed), 70):
         part = fixed[lo:lo + 70]
-        jobs.append((IMP_IMG, [f'bad_idx (fun c : list N * option (list N) => onl_eqb (option_map flat_img2 (img_parse (fst c))) (snd c)) 0 {coq_list(part)}'], f'imgparse{lo}', pre))
-    for lo, vals in zip(range(0, len(fixed), 70), par_eval(ck, jobs)):
+        jobs_p.append((IMP_IMG, [f'bad_idx (fun c : list N * option (list N) => onl_eqb (option_map flat_img2 (img_parse (fst c))) (snd c)) 0 {coq_list(part)}'], f'imgparse{lo}', pre))
+    allv = yield jobs + jobs_p
+    for lo, vals in zip(range(0, len(wcases), 50), allv[:len(jobs)]):
+        if vals is None:
+            ck.obligation('correspondence:scenes-image-write', False, 'model could not be evaluated')
+            ck.tie_broken.append('correspondence scenes.image write: model evaluation failed')
+            return
+        bad += [lo + i for i in parse_coq_N_list(vals[0])]
+    ck.obligation('correspondence:scenes-image-write', not bad,
+                  f'{len(wcases)} container-level images (shared pool, raw and LZMA-stored blobs, v2/v3, entries in random order): '
+                  f'model img_write_py vs save_scenes_image_sync bytes: {len(bad)} disagreements')
+    if bad:
+        ck.tie_broken.append('correspondence scenes.image write (Fmt/ScenesImage.v img_write_py vs save_scenes_image_sync)')
+        ck.extra['image_write_disagreement'] = wcases[bad[0]][2]
+    bad = []
+    for lo, vals in zip(range(0, len(fixed), 70), allv[len(jobs):]):
         if vals is None:
             ck.obligation('correspondence:scenes-image-parse', False, 'model could not be evaluated')
             ck.tie_broken.append('correspondence scenes.image parse: model evaluation failed')
@@ -644,7 +643,7 @@ def corr_image_pool(ck: Ck) -> None:
         lit = coq_list(c for c, _ in part)
         jobs.append((IMP_IMGCFG, ['bad_idx (fun c : (bool * N) * list (list N) * list (N * sentry) * option (list N) => '
                                   'let \'(dv, p0, kes, e) := c in onl_eqb (img_save_s si_gen_cfg (fst dv) (snd dv) p0 kes) e) 0 ' + lit], f'imgpool{lo}', PRE))
-    for lo, vals in zip(range(0, len(cases), 40), par_eval(ck, jobs)):
+    for lo, vals in zip(range(0, len(cases), 40), (yield jobs)):
         if vals is None:
             ck.obligation('correspondence:scenes-image-pool-and-sort', False, 'model could not be evaluated')
             ck.tie_broken.append('correspondence scenes.image pool/sort: model evaluation failed')
@@ -753,7 +752,7 @@ def corr_snd_stacks(ck: Ck) -> None:
     for lo in range(0, len(cases), 400):
         jobs.append((IMP_TXT, ['bad_idx okc 0 ' + coq_list(c for c, _ in cases[lo:lo + 400])], f'sndstk{lo}', PRE_SNDSTK))
     bad: list[int] = []
-    for lo, vals in zip(range(0, len(cases), 400), par_eval(ck, jobs)):
+    for lo, vals in zip(range(0, len(cases), 400), (yield jobs)):
         if vals is None:
             ck.obligation('correspondence:sndscript-stacks', False, 'model could not be evaluated')
             ck.tie_broken.append('correspondence soundscript stacks: model evaluation failed')
@@ -766,6 +765,66 @@ def corr_snd_stacks(ck: Ck) -> None:
     if bad:
         ck.tie_broken.append('correspondence soundscript stacks (Fmt/SndStacks.v over Gen/TextFields_gen.v vs Sound.export / parse_one)')
         ck.extra['snd_stacks_disagreement'] = cases[bad[0]][1]
+
+
+
+# ================================================================================================ VMT on-demand quoting
+
+def corr_vmt_quote(ck: Ck) -> None:
+    """`VmtQuote.needs_quotes vmt_nq` vs vmt._needs_quotes on EVERY string of length <= 2 over the delimiters, '/', '#', a letter, a
+    backslash and a non-ASCII character; `VmtQuote.param_line vmt_nq name value` vs the line Material.export writes for generated pairs."""
+    from srctools import vmt as V
+    alpha = sorted(set('"\'{};,=[]()\r\n\t /#a\\$:+*') | {'﻿', '\xe9'})
+    strs = [''] + alpha + [a + b for a in alpha for b in alpha]
+    qcases = []
+    for t in strs:
+        try:
+            r = bool(V._needs_quotes(t))
+        except Exception:
+            r = None
+        qcases.append((t, r))
+        ck.count('vmt_needs_quotes_cases')
+    ck.hist('vmt_needs_quotes', 'all strings of length <= 2 over %d characters' % len(alpha), len(strs))
+    lcases = []
+    pool = ['$basetexture', 'a', '/x', '#x', 'a b', 'x/y', 'a\\b', '[1 2]', '', '{', 'x=y', "it's", 'models/props/tex', '$x[0]', '>=dx90?$x', 'a,b', '﻿z']
+    for _ in range(ck.budget(40, 400)):
+        nm = ck.rng.choice([p for p in pool if p.strip()] + [U.rstr(ck.rng, U.VMT_ALPHA, 1, 6)])
+        val = ck.rng.choice(pool + [U.rstr(ck.rng, U.VMT_ALPHA, 0, 8)])
+        if not nm.strip():
+            continue
+        try:
+            m = V.Material('s')
+            m[nm] = val
+            text = U.vmt_write(m)
+            head, tail = 's\n\t{\n', '\t}\n'
+            line = text[len(head):len(text) - len(tail)] if text.startswith(head) and text.endswith(tail) else None
+        except Exception:
+            line = None
+        lcases.append((nm, val, line))
+        ck.count('vmt_param_line_cases')
+        if line is not None and len(line) > 6:
+            ck.seen(('vmtline', nm, val))
+
+    def cs(t: str) -> str:
+        return nl(map(ord, t))
+    e1 = 'bad_idx (fun c : list N * N => N.eqb (if VmtQuote.needs_quotes vmt_nq (fst c) then 1 else 0) (snd c)) 0 ' + coq_list(
+        f'({cs(t)}, {2 if r is None else int(r)})' for t, r in qcases)
+    e2 = 'bad_idx (fun c : (list N * list N) * option (list N) => onl_eqb (Some (VmtQuote.param_line vmt_nq (fst (fst c)) (snd (fst c)))) (snd c)) 0 ' + coq_list(
+        f'(({cs(a)}, {cs(b)}), {"None" if ln is None else "Some " + cs(ln)})' for a, b, ln in lcases)
+    [vals] = yield [(IMP_TXT, [e1, e2], 'vmtquote', PRE)]
+    if vals is None:
+        ck.obligation('correspondence:vmt-quoting', False, 'model could not be evaluated')
+        ck.tie_broken.append('correspondence VMT quoting: model evaluation failed')
+        return
+    b1, b2 = parse_coq_N_list(vals[0]), parse_coq_N_list(vals[1])
+    ck.obligation('correspondence:vmt-quoting', not b1 and not b2,
+                  f'{len(qcases)} strings (all of length <= 2 over {len(alpha)} characters): VmtQuote.needs_quotes over the generated table vs '
+                  f'vmt._needs_quotes: {len(b1)} disagreements; {len(lcases)} (name, value) pairs: VmtQuote.param_line vs the line Material.export '
+                  f'writes: {len(b2)} disagreements')
+    if b1 or b2:
+        ck.tie_broken.append('correspondence VMT quoting (Fmt/VmtQuote.v over Gen/TextFields_gen.v vs vmt._needs_quotes / Material.export)')
+        ck.extra['vmt_quote_disagreement'] = {'string': qcases[b1[0]][0], 'impl': qcases[b1[0]][1]} if b1 else \
+            {'name': lcases[b2[0]][0], 'value': lcases[b2[0]][1], 'impl_line': lcases[b2[0]][2]}
 
 
 # ================================================================================================ binary choreo correspondence
@@ -870,7 +929,7 @@ def corr_choreo_bin(ck: Ck) -> None:
         part = cases[lo:lo + 20]
         jobs.append((IMP_CB, ['bad_idx okcase 0 ' + coq_list(f'({v}, {nl(d)})' for v, d, _ in part)], f'cbenc{lo}', pre))
     bad: list[int] = []
-    for lo, vals in zip(range(0, len(cases), 20), par_eval(ck, jobs)):
+    for lo, vals in zip(range(0, len(cases), 20), (yield jobs)):
         if vals is None:
             ck.obligation('correspondence:vcd-binary-layout', False, 'model could not be evaluated')
             ck.tie_broken.append('correspondence binary choreo layout: model evaluation failed')
@@ -950,7 +1009,7 @@ def corr_summary(ck: Ck) -> None:
         jobs.append((['Coq.Lists.List', 'Coq.NArith.NArith', 'Coq.Bool.Bool', 'SV.Fmt.SceneSummary'],
                      ['bad_idx okc 0 ' + coq_list(c for c, _ in cases[lo:lo + 60])], f'summary{lo}', pre))
     bad: list[int] = []
-    for lo, vals in zip(range(0, len(cases), 60), par_eval(ck, jobs)):
+    for lo, vals in zip(range(0, len(cases), 60), (yield jobs)):
         if vals is None:
             ck.obligation('correspondence:scene-summary', False, 'model could not be evaluated')
             ck.tie_broken.append('correspondence scene summary: model evaluation failed')
@@ -1280,6 +1339,32 @@ def run(ck: Ck) -> None:
                      + (['Gen/ChoreoBin_gen.vo'] if ok5 else []))
     lap('translate+build')
     finish_theorems = theorems_async(ck, 'Props/C20.v') if built else None
+    # the correspondences are generators: they build their cases (Python, consuming ck.rng in a fixed order), yield the Coq jobs, and
+    # record their obligation when the results are sent back.  The jobs of all of them run in a thread pool while the next ones
+    # are being generated; `collect` joins in launch order, so records and outcome are deterministic.
+    from concurrent.futures import ThreadPoolExecutor
+    pool = ThreadPoolExecutor(max_workers=8)
+    pending: list[tuple] = []
+
+    def launch(gen) -> None:
+        try:
+            jobs = next(gen)
+        except StopIteration:
+            return
+        pending.append((gen, [pool.submit(lambda j=j: ck.coq_eval(j[0], j[1], name=j[2], preamble=j[3])) for j in jobs]))
+
+    def collect() -> None:
+        for gen, futs in pending:
+            res = [f.result() for f in futs]
+            while True:
+                try:
+                    jobs = gen.send(res)
+                except StopIteration:
+                    break
+                res = par_eval(ck, jobs)
+        pending.clear()
+        pool.shutdown()
+
     def tie(res: dict, what: str) -> None:
         if not all(res.values()):
             ck.tie_broken.append(f'instance obligations about {what} fail: ' + ', '.join(k for k, v in res.items() if not v))
@@ -1296,10 +1381,11 @@ def run(ck: Ck) -> None:
             'cmdseq_cfg_ok': 'cfg_okb gen_cfg',
         }, name='cs'), 'cmdseq.py')
         lap('instance-cmdseq')
-        files = corr_cmdseq_write(ck)
-        lap('corr-cmdseq-write')
-        corr_cmdseq_parse(ck, files)
-        lap('corr-cmdseq-parse')
+        files: list[tuple[dict, bytes]] = []
+        launch(corr_cmdseq_write(ck, files))
+        lap('gen-cmdseq-write')
+        launch(corr_cmdseq_parse(ck, files))
+        lap('gen-cmdseq-parse')
     # the three template / path censuses are evaluated by one coqc (fewer processes); a failing group is named by its obligations
     m_imps: list[str] = []
     m_obs: dict[str, str] = {}
@@ -1333,6 +1419,8 @@ def run(ck: Ck) -> None:
             'sndscript_stack_census_ok': 'SndStacks.guard_okb snd_v2_guard && SndStacks.blocks_okb snd_stack_blocks',
             'vmt_free_text_quoted_or_quoted_on_demand_except_shader': 'free_text_quoted_or_on_demand 1 vmt_fields',
             'vmt_field_census_nonempty': 'Nat.leb 5 (length vmt_fields)',
+            'vmt_needs_quotes_covers_empty_comment_directive_and_every_delimiter': 'VmtQuote.nq_okb vmt_nq',
+            'vmt_parameter_line_is_tab_name_space_value_newline_both_quoted_on_demand': 'vmt_param_line_is_tab_name_space_value_newline',
             'vcd_text_free_text_escaped_and_quoted': 'free_text_escaped cho_fields',
             'vcd_text_no_escape_outside_quotes': 'no_escape_outside_quotes cho_fields',
             'vcd_text_block_keywords_are_literals_outside_quotes': 'keywords_bare cho_fields',
@@ -1357,17 +1445,18 @@ def run(ck: Ck) -> None:
         tie(ck.instance_obligations(list(dict.fromkeys(m_imps)), m_obs, name='tpl'), ' / '.join(m_what))
     lap('instance-smd+text+choreo-bin')
     if built and ok4:
-        corr_snd_stacks(ck)
-    lap('corr-snd-stacks')
+        launch(corr_snd_stacks(ck))
+        launch(corr_vmt_quote(ck))
+    lap('gen-snd-stacks+vmt-quote')
     if built and ok5:
-        corr_choreo_bin(ck)
-    lap('corr-choreo-bin')
+        launch(corr_choreo_bin(ck))
+    lap('gen-choreo-bin')
     if built:
-        corr_summary(ck)
-    lap('corr-summary')
+        launch(corr_summary(ck))
+    lap('gen-summary')
     if built:
-        corr_image(ck)
-    lap('corr-image')
+        launch(corr_image(ck))
+    lap('gen-image')
     if built and ok3:
         c = 'si_gen_cfg'
         tie(ck.instance_obligations(IMP_IMGCFG, {
@@ -1391,8 +1480,10 @@ def run(ck: Ck) -> None:
             'image_cfg_ok': f'icfg_okb {c}',
         }, name='imgcfg'), 'choreo.py save_scenes_image_sync / parse_scenes_image')
         lap('instance-image')
-        corr_image_pool(ck)
-        lap('corr-image-pool')
+        launch(corr_image_pool(ck))
+        lap('gen-image-pool')
+    collect()
+    lap('correspondences(join)')
     if finish_theorems is not None:
         finish_theorems()
     lap('print-assumptions(join)')
@@ -1426,6 +1517,8 @@ def run(ck: Ck) -> None:
             ck.explain('translate:TextFields_gen')
             if pre == 'sndscript:':
                 ck.explain('correspondence:sndscript-stacks')
+            if pre == 'vmt:':
+                ck.explain('correspondence:vmt-quoting')
     if any(k.startswith('scenes-image:') for k in keys):
         ck.explain('correspondence:scenes-image')
         ck.explain('instance:image_')
